@@ -578,7 +578,7 @@ func runC18(cfg *runCfg) error {
 			rev := c18CoqFiles(c, []c18File{in.Files[1], in.Files[0]})
 			model = fmt.Sprintf("orb (%s) (model_agrees %s %s %s %s)", model, ops, coqBool(in.Batch), rev, obsTerm)
 		}
-		c.Printf("Eval vm_compute in (%d%%nat, %s, property_holds %s %s %s %s).\n", id, model, ops, coqBool(in.Batch), files, obsTerm)
+		c.Printf("Eval vm_compute in (\"%d\"%%string, %s, property_holds %s %s %s %s).\n", id, model, ops, coqBool(in.Batch), files, obsTerm)
 		depth := 0
 		npaths := 0
 		for _, o := range in.Ops {
